@@ -45,6 +45,19 @@ func (e *Engine) harnessAPI2(name string, args []Value, fn *ssa.Function) (Value
 		return e.tt.UF("utf8valid", 0, e.intern("rope", e.ropeKey(r))), true
 	case "vRand":
 		return Iface{typ: e.fake("rand"), val: OpaqueV{kind: "rand"}}, true
+	case "vEdSign":
+		r := e.callStub("(crypto/ed25519.PrivateKey).Sign", nil, []Value{args[0], Iface{}, args[1], Iface{}}).(TupleV)
+		return r[0], true
+	case "vRSAPSSSign":
+		// same primitive as (*rsa.PrivateKey).Sign with PSS options {SaltLengthEqualsHash, hash}
+		opts := &StructV{fields: []Value{e.tt.BVi(-1, 64), args[1].(*Term)}}
+		optT := types.NewPointer(e.lookupType("crypto/rsa", "PSSOptions"))
+		n := len(e.nondets)
+		e.forceOK = true
+		r := e.callStub("(*crypto/rsa.PrivateKey).Sign", nil, []Value{args[0], Iface{}, args[2], Iface{typ: optT, val: PtrV{cell: e.newCell(opts, "pssopts")}}}).(TupleV)
+		e.forceOK = false
+		_ = n
+		return r[0], true
 	case "vHash":
 		h := args[0].(*Term)
 		n := len(e.primLog)
